@@ -528,6 +528,17 @@ class Body:
                 # closure environment: _1.N / (*_1).N
                 if base[0] == "param" and base[1] == 1 and self.kind == "Closure":
                     base = ("capture", nm)
+                elif base[0] == "phi" and all(x[0] == "agg" and x[1].get("ak") in ("adt", "tuple") for x in base[1]):
+                    alts = []
+                    for x in base[1]:
+                        idx = pr["f"]
+                        if x[1].get("ak") == "adt" and x[1].get("fields") and len(x[1]["fields"]) == len(x[2]):
+                            try:
+                                idx = x[1]["fields"].index(nm)
+                            except ValueError:
+                                idx = pr["f"]
+                        alts.append(x[2][idx] if idx < len(x[2]) else ("field", x, nm))
+                    base = ("phi", alts, base[2] if len(base) > 2 else None)
                 elif base[0] == "agg" and base[1].get("ak") in ("adt", "tuple", "closure") :
                     # projection out of a known aggregate: pick the operand
                     idx = pr["f"]
